@@ -494,6 +494,15 @@ def array(obj, dtype=None, *a, **k):
             return core._lift_nd(lambda s: _parse_num(s, want_int), src)
         if _has_sym(obj):
             return as_symnd(_np.array(obj, dtype=object))
+    try:
+        nd = _np.dtype(dtype) if isinstance(dtype, (str, type, _np.dtype)) else None
+    except TypeError:
+        nd = None
+    if nd is not None and nd.kind in 'iu' and nd.itemsize < 8 and _has_sym(obj):
+        # proxies stored under an integer element type narrower than 64 bits: the (uninterpreted) conversion, as in empty()
+        out = _apply_cast(_np.array(obj, dtype=object), nd).view(SymNd)
+        out._cast = nd
+        return out
     r = _np.array(obj, dtype, *a, **k) if dtype is not None else _np.array(obj, *a, **k)
     return as_symnd(r)
 
